@@ -578,6 +578,46 @@ def d12_integers_are_exact(chk: Check) -> None:
                  .format([src(c)[:30] for c in ints]))
 
 
+def d13_callers_choices_unaltered(chk: Check) -> None:
+    """_update_node hands the caller's value, format and tag to
+    make_new_node as they were given.  In particular the tag: a tag of None
+    means "none requested", and make_new_node can only tag *text* -- taking
+    the old node's tag for it wraps an integer / boolean / null in a
+    TaggedScalar that the document can no longer be dumped with."""
+    prog = chk.prog
+    chk.rule("C03-D13", "_update_node passes its value, value_format and "
+             "tag parameters to make_new_node unmodified (no assignment to "
+             "them on the way)", floor=3)
+    fi = prog.func("Processor._update_node")
+    calls = [c for c in walk_local(fi.node) if isinstance(c, ast.Call) and
+             src(c.func).endswith("make_new_node")]
+    if len(calls) != 1:
+        raise AnalysisError("make_new_node call of _update_node not found")
+    c = calls[0]
+    passed = [a for a in c.args[1:]] + [k.value for k in c.keywords]
+    params = set(fi.params())
+    stores = {}
+    for n in walk_local(fi.node):
+        if isinstance(n, ast.Name) and isinstance(n.ctx, ast.Store) and \
+                n.id in params:
+            stores.setdefault(n.id, []).append(n)
+    for a in passed:
+        text = "make_new_node(..., {})".format(src(a))
+        if not (isinstance(a, ast.Name) and a.id in params):
+            chk.fail("C03-D13", fi, c, text,
+                     "the argument is not one of _update_node's own "
+                     "parameters")
+        elif a.id in stores:
+            chk.fail("C03-D13", fi, stores[a.id][0], text,
+                     "`{}` is re-bound inside _update_node before it "
+                     "reaches make_new_node: the node built is not the one "
+                     "the caller asked for (a tag taken over from the old "
+                     "node wraps a non-text value in a TaggedScalar, which "
+                     "cannot be dumped)".format(a.id))
+        else:
+            chk.ok("C03-D13", fi, c, text, "the caller's own choice")
+
+
 def run(chk: Check) -> None:
     d1_guards(chk)
     d2_sole_writers(chk)
@@ -595,6 +635,7 @@ def run(chk: Check) -> None:
     d9_rename_position(chk)
     d10_twin_arms(chk)
     d12_integers_are_exact(chk)
+    d13_callers_choices_unaltered(chk)
     from rules.shared import shared_state_rule
     shared_state_rule(chk, "C03-D11", ("yamlpath/processor.py",
                                    "yamlpath/common/nodes.py"), 45)
